@@ -177,3 +177,107 @@ func TestC14(t *testing.T) {
 	defer st.Flush()
 	rapid.Check(t, c14Prop(st))
 }
+
+// Long histories: counters kept on pooled builder state (per document, per
+// build) come back to the value they had during the first build of the target
+// after exactly 2^8 / 2^16 documents or builds. The test owns the schedule
+// (one P, so the pool hands the same builder back every time).
+const c14LongRule = "case = a small target built cold, then filler builds (empty / _id-only / one-field documents, batches of 1..1024) drawn so that the number of documents or of builds between the two builds of the target is exactly " +
+	"2^8 or 2^16 (or off by a drawn jitter), then the target again, on one P so that the pooled builder is reused throughout; oracle = identical bytes; " +
+	"non-trivial = exact 2^16 alignment (documents or builds) reached and the second build started from a recycled builder; distinct = hash of case text"
+
+func c14LongProp(st *CaseStats) func(t *rapid.T) {
+	return func(t *rapid.T) {
+		sc := GenScenario(t)
+		var target Batch
+		var tdesc string
+		for len(target) == 0 {
+			if rapid.Bool().Draw(t, "targetPosting") {
+				target = genPostingBatch(t, sc)
+			} else {
+				target = GenBatch(t, sc, 6)
+			}
+			tdesc = target.String()
+			if len(target) == 0 {
+				target = Batch{{Fields: []Field{{Name: "title", Len: 1, Terms: []Term{{T: "x", Freq: 1}}}}}}
+			}
+		}
+		mode := rapid.SampledFrom(ChunkModes).Draw(t, "mode")
+		if !HooksOn {
+			mode = 1025
+		}
+		wrap := rapid.SampledFrom([]int{1 << 8, 1 << 16, 1 << 16, 1 << 16}).Draw(t, "wrap")
+		align := rapid.SampledFrom([]string{"docs", "docs", "docs", "builds"}).Draw(t, "align")
+		jitter := rapid.SampledFrom([]int{0, 0, 0, 0, 1, -1, 2}).Draw(t, "jitter")
+		fillKind := rapid.IntRange(0, 2).Draw(t, "fillKind")
+		maxBatch := rapid.SampledFrom([]int{1, 7, 256, 1000, 1024}).Draw(t, "maxBatch")
+		if align == "builds" {
+			maxBatch = 1
+		}
+		desc := fmt.Sprintf("%s target(mode=%d){%s} wrap=%d align=%s jitter=%d fillKind=%d maxBatch=%d", sc, mode, tdesc, wrap, align, jitter, fillKind, maxBatch)
+		old := runtime.GOMAXPROCS(1)
+		defer runtime.GOMAXPROCS(old)
+		runtime.GC()
+		runtime.GC()
+		first, err := buildBytes(target, sc.Norm, mode)
+		if err != nil {
+			t.Fatalf("%s: %v", desc, err)
+		}
+		fillDoc := func(i int) Doc {
+			switch fillKind {
+			case 0:
+				return Doc{}
+			case 1:
+				return Doc{Fields: []Field{{Name: "_id", Len: 1, Terms: []Term{{T: fmt.Sprintf("i%d", i%10), Freq: 1}}}}}
+			}
+			return Doc{Fields: []Field{{Name: "a", Len: 1, Terms: []Term{{T: "f", Freq: 1}}}}}
+		}
+		// documents (or builds) strictly between the two builds of the target
+		var total int
+		if align == "docs" {
+			total = wrap - len(target) + jitter // document j of the target is processed exactly wrap documents after its first time
+		} else {
+			total = wrap - 1 + jitter // the second build of the target is exactly wrap builds after the first
+		}
+		if total < 0 {
+			total = 0
+		}
+		filler := make(Batch, 0, maxBatch)
+		builds := 0
+		for done := 0; done < total; {
+			n := maxBatch
+			if n > total-done {
+				n = total - done
+			}
+			filler = filler[:0]
+			for i := 0; i < n; i++ {
+				filler = append(filler, fillDoc(done+i))
+			}
+			if _, err := Build(filler, sc.Norm, 1025); err != nil {
+				t.Fatalf("%s: filler build: %v", desc, err)
+			}
+			done += n
+			builds++
+		}
+		used, known := hookPoolHoldsUsed()
+		again, err := buildBytes(target, sc.Norm, mode)
+		if err != nil {
+			t.Fatalf("%s: rebuilding the target: %v", desc, err)
+		}
+		if !bytes.Equal(again, first) {
+			t.Fatalf("%s:\n  after %d filler builds holding %d documents the target builds to different bytes (%d vs %d bytes, first difference at byte %d; pool held a used object: %v)",
+				desc, builds, total, len(again), len(first), firstDiff(again, first), used)
+		}
+		labels := []string{fmt.Sprintf("wrap-%d-%s", wrap, align)}
+		if known && used {
+			labels = append(labels, "target-on-recycled-builder")
+		}
+		st.Record(desc, wrap == 1<<16 && jitter == 0 && (!known || used), labels...)
+	}
+}
+
+func TestC14Long(t *testing.T) {
+	st := NewStats("C14Long", c14LongRule)
+	defer st.Flush()
+	rapid.Check(t, c14LongProp(st))
+}
